@@ -236,6 +236,7 @@ pub struct SeqOutcome {
 	pub stats: SeqStats,
 	pub failures: Vec<(Vec<usize>, SeqFailure)>,
 	pub exhaustive: bool,
+	#[allow(dead_code)]
 	pub len: usize,
 	pub alphabet: usize,
 }
